@@ -123,6 +123,9 @@ def r1_no_soft_breaks_between_prose(w):
         r.ok(cons, 'mandatory breaks, count copied from the collector')
     else:
         r.bad(cons, 'convert_markup_impl|line-end', 'line ends are not emitted as hardline repeated MarkupLine.breaks times', cm[0].loc())
+    # "their own line-feed count": the count is taken by the text predicate, which has to count line breaks the way the lexer cut the tokens
+    for ok, cons, key, why, loc in e2.linebreak_predicate_obligations(w):
+        (r.ok(cons, why) if ok else r.bad(cons, key, why, loc))
     return r
 
 
